@@ -100,3 +100,20 @@ func (inst *Instance) StopAsync() *G {
 	inst.StopRequested = true
 	return inst.Call(RoleStopper, "Stop", func() { inst.WM.Stop() })
 }
+
+// SyncIssued extends the harness's list of issued addresses of an imported
+// wallet to the number of external keys the wallet reports (an import derives
+// at least one address and everything its scan discovered).
+func (inst *Instance) SyncIssued(ws *WalletState) {
+	wi, err := inst.Use(ws.ID, true)
+	if err != nil {
+		return
+	}
+	n := int(wi.ExternalKeyCount)
+	for len(ws.Issued) < n {
+		idx := uint32(len(ws.Issued))
+		var h [32]byte
+		copy(h[:], ws.HD.Addr(idx).ScriptHash)
+		ws.Issued = append(ws.Issued, IssuedAddr{Index: idx, Addr: inst.W.Gen.addrString(h), FromImport: true})
+	}
+}
